@@ -5,6 +5,7 @@ go 1.23.6
 require (
 	github.com/atlassian/gostatsd v0.0.0
 	github.com/sirupsen/logrus v1.9.0
+	github.com/spf13/viper v1.17.0
 	github.com/tilinna/clock v1.1.0
 )
 
@@ -45,7 +46,6 @@ require (
 	github.com/spf13/afero v1.10.0 // indirect
 	github.com/spf13/cast v1.5.1 // indirect
 	github.com/spf13/pflag v1.0.5 // indirect
-	github.com/spf13/viper v1.17.0 // indirect
 	github.com/subosito/gotenv v1.6.0 // indirect
 	golang.org/x/net v0.35.0 // indirect
 	golang.org/x/oauth2 v0.28.0 // indirect
